@@ -128,6 +128,40 @@ for v, fp in zip(variants, res):
     keep.append(v)
 json.dump({"_comment": "generated by tools/gen_selftest.py; props = checks that fire on the variant (regression expectation); variants with empty props are documented misses",
            "variants": keep}, open(V / "pta/selftest/variants.json", "w"), indent=1)
+# benign refactorings from independent sub-agents -> passing twins
+benign = []
+bdir = V / "benign"
+if bdir.exists():
+    for sd in sorted(bdir.iterdir()):
+        if not (sd / "patch.diff").exists():
+            continue
+        e0 = hunks((sd / "patch.diff").read_text())
+        edits = None
+        for keep in (3, 1, 0):
+            e = trim_context(e0, keep)
+            if any(not x["old"].strip() for x in e):
+                continue
+            tmp = Path(tempfile.mkdtemp(prefix="pta-gen-"))
+            try:
+                for h in e:
+                    (tmp / h["file"]).parent.mkdir(parents=True, exist_ok=True)
+                    if Path("/repo/" + h["file"]).exists():
+                        shutil.copy("/repo/" + h["file"], tmp / h["file"])
+                if _ap2(tmp, e):
+                    edits = e
+                    break
+            finally:
+                shutil.rmtree(tmp, ignore_errors=True)
+        if edits is None:
+            print("STALE benign (edits do not apply):", sd.name)
+            continue
+        benign.append({"name": f"benign-{sd.name}", "kind": "twin",
+                       "what": json.load(open(sd / "meta.json")).get("summary", ""),
+                       "props": props, "edits": edits})
+json.dump({"_comment": "generated by tools/gen_selftest.py from /verif/benign/*: behaviour-"
+           "preserving refactorings written by independent sub-agents; passing twins",
+           "variants": benign}, open(V / "pta/selftest/benign.json", "w"), indent=1)
+print(len(benign), "benign twins")
 # record in seeded/*/meta.json
 for v in keep:
     if v["name"].startswith("seed-"):
